@@ -305,18 +305,52 @@ class Model:
                 # a mode table: a dict literal of dict literals {Class: {'slot': Class.func, ...}, ...} (whatever it is called)
                 if isinstance(n.value, ast.Dict) and n.value.values and all(isinstance(v, ast.Dict) for v in n.value.values):
                     d = {}
+                    plain = True
                     for k, v in zip(n.value.keys, n.value.values):
                         kc = local_alias.get(ast.unparse(k), ast.unparse(k))
                         for sk, sv in zip(v.keys, v.values):
                             if not (isinstance(sk, ast.Constant) and isinstance(sv, ast.Attribute)):
-                                raise AnalysisError(f"{name}: entry {ast.unparse(sk)} is not 'slot': Class.func")
+                                plain = False          # e.g. a table of (msb0, lsb0) pairs: handled below
+                                continue
                             vc = local_alias.get(ast.unparse(sv.value), ast.unparse(sv.value))
                             d[(kc, sk.value)] = (vc, sv.attr, sv.lineno)
-                    tables.append((name, d))
+                    if plain:
+                        tables.append((name, d))
                 elif isinstance(n.value, ast.Attribute):
                     local_alias[name] = n.value.attr
+        self.switch_pair_index = None
         if len(tables) != 2:
-            raise AnalysisError("anchor vanished: the two mode tables (dict literals of dict literals) not found in Options.set_lsb0")
+            # one table of (msb0, lsb0) pairs:  {Class: {'slot': (Class.f_a, Class.f_b), ...}, ...}
+            pair_tables = []
+            for n in ast.walk(f.node):
+                if isinstance(n, ast.Assign) and len(n.targets) == 1 and isinstance(n.targets[0], ast.Name) and isinstance(n.value, ast.Dict) and n.value.values \
+                        and all(isinstance(v, ast.Dict) and v.values and all(isinstance(w, ast.Tuple) and len(w.elts) == 2 and all(isinstance(e, ast.Attribute) for e in w.elts)
+                                                                                 for w in v.values) for v in n.value.values):
+                    pair_tables.append(n)
+            if len(pair_tables) != 1:
+                raise AnalysisError("anchor vanished: the mode tables (dict literals of dict literals) not found in Options.set_lsb0")
+            n = pair_tables[0]
+            halves = [{}, {}]
+            for k, v in zip(n.value.keys, n.value.values):
+                kc = local_alias.get(ast.unparse(k), ast.unparse(k))
+                for sk, sv in zip(v.keys, v.values):
+                    if not isinstance(sk, ast.Constant):
+                        raise AnalysisError(f"{n.targets[0].id}: entry {ast.unparse(sk)} is not 'slot': (Class.f, Class.g)")
+                    for i in (0, 1):
+                        e = sv.elts[i]
+                        vc = local_alias.get(ast.unparse(e.value), ast.unparse(e.value))
+                        halves[i][(kc, sk.value)] = (vc, e.attr, e.lineno)
+            score = [sum(v[1].endswith('_lsb0') for v in d.values()) - sum(v[1].endswith('_msb0') for v in d.values()) for d in halves]
+            if score[0] == score[1]:
+                raise AnalysisError("Options.set_lsb0: cannot tell the lsb0 half of the pairs from the msb0 half (needs a human)")
+            hi = 0 if score[0] > score[1] else 1
+            self.switch = {'lsb0': halves[hi], 'msb0': halves[1 - hi]}
+            self.switch_names = {'lsb0': n.targets[0].id, 'msb0': n.targets[0].id}
+            self.switch_pair_index = {'lsb0': hi, 'msb0': 1 - hi}
+            for mode, d in self.switch.items():
+                for (c, s2), (vc, vf, _) in d.items():
+                    self.slots[(c, s2)][mode] = (vc, vf)
+            return
         # which is which: the lsb0 table is the one naming more *_lsb0 variants
         score = [sum(v[1].endswith('_lsb0') for v in d.values()) - sum(v[1].endswith('_msb0') for v in d.values()) for _, d in tables]
         if score[0] == score[1]:
